@@ -312,6 +312,10 @@ fn helpers_case(out: &mut Out, g: &GraphModel, strat: &str, cfg: &Cfg, r: &mut R
         out.m(&format!("helpers {} {} {} {} {}", strat, g.graph_sx(), g.props_sx(), cfg.sx(), gsx),
               &format!("({}) (assert {})", rows.join(" "), if ap { "ok" } else { "panic" }));
         out.stat("helper-cases");
+        // direct law of the property statement: assert_properties may only succeed on a check that is done
+        if strat == "fresh" && ap {
+            out.v("assert-properties-succeeded-on-an-unfinished-check", &format!("a never-run on-demand checker (is_done = false): assert_properties() returned; graph {} props {}", g.graph_sx(), g.props_sx()));
+        }
         for row in &rows {
             if row.ends_with("ok ok)") { out.stat("assert_discovery-own-accepted-given-accepted"); }
             else if row.ends_with("ok panic)") { out.stat("assert_discovery-own-accepted-given-rejected"); }
